@@ -399,7 +399,45 @@ def eval_require(ctx, case):
     return Verdict.held({"exit": r.exit, "written": written}, tags=tags)
 
 
+CANDIDATE_BUILTIN_NAMES = ["testify", "matryer", "moq", "mockery", "mock", "mocks", "stub", "fake", "gomock", "counterfeiter", "expecter", "Testify", "MATRYER",
+                           "testify.templ", "mockery-testify", "v2"]
+
+
+def eval_builtin_name(ctx, case):
+    """Whatever name the tool accepts as a built-in template (a bare word, no scheme) has a built-in schema: data that no built-in schema allows
+    (an undeclared key; both known schemas close their property list) must be rejected under that name too. Names the tool rejects are not judged."""
+    name = case["name"]
+    src = {"p/p.go": "package p\n\ntype Alpha interface{ A(x int) error }\n\ntype Beta interface{ B() string }\n"}
+
+    def run_with(td_root, td_iface):
+        cfg = {"template": name, "dir": "out", "pkgname": "mocks", "filename": "m_{{.InterfaceName}}.go", "formatter": "noop",
+               "packages": {MOD + "/p": {"interfaces": {"Alpha": {"config": {"template-data": td_iface}} if td_iface else {}, "Beta": {}}}}}
+        if td_root:
+            cfg["template-data"] = td_root
+        root = core.scratch_module(ctx, dict(src, **{".mockery.yml": json.dumps(cfg)}))
+        r = core.run_mockery(ctx, root, [], timeout=300, block_window=20)
+        return root, r
+    root, r0 = run_with(None, None)
+    if r0.timed_out:
+        return Verdict.inconclusive("watchdog")
+    if r0.panicked:
+        return Verdict.violated("template name %r: mockery crashed" % name, r0.brief())
+    if r0.exit != 0:
+        return Verdict.held({"name": name, "accepted": False}, nontrivial=False, tags=["builtin-name-rejected"])
+    for where, (tr, ti) in (("file level", ({"zz-undeclared-key": True}, None)), ("interface level", (None, {"zz-undeclared-key": True}))):
+        root, r = run_with(tr, ti)
+        if r.timed_out:
+            return Verdict.inconclusive("watchdog")
+        written = sorted(f for f in os.listdir(os.path.join(root, "out"))) if os.path.isdir(os.path.join(root, "out")) else []
+        if r.exit == 0 or "m_Alpha.go" in written:
+            return Verdict.violated("template name %r is accepted as a built-in template, but template-data with an undeclared key at %s is not rejected "
+                                    "(exit %s, written %s): no schema is applied under this name" % (name, where, r.exit, written), dict(r.brief(), name=name))
+    return Verdict.held({"name": name, "accepted": True}, tags=["builtin-name-accepted"])
+
+
 def eval_case(ctx, case):
+    if case["kind"] == "builtin-name":
+        return eval_builtin_name(ctx, case)
     if case["kind"] == "require":
         return eval_require(ctx, case)
     return eval_shared(ctx, case) if case["kind"] == "shared" else eval_single(ctx, case)
@@ -445,6 +483,8 @@ def body(ctx, replay=None):
                             c["broke"] = [brk, "unknown-key"]
                         cases.append(c)
                         j += 1
+            # every bare word the tool might accept as the name of a built-in template
+            cases += [{"kind": "builtin-name", "i": 32000 + j, "name": nm} for j, nm in enumerate(CANDIDATE_BUILTIN_NAMES)]
         ctx.run_cases(cases, eval_case)
     finally:
         ctx.server.close()
